@@ -9,7 +9,7 @@ REQUIRED_THEOREMS = ["genStep_solo", "pointwise", "concat", "error_in_place", "g
                      "nextOn_get", "interleave"]
 RULE = ("requests `gen ...` over streams mixing recognisable / unrecognisable / wrong-length packets of several APIDs x all "
         "8 combinations of (skip bad packets, report unrecognized, headers only), and `gensched ...`: 2..4 real generators "
-        "created from one definition object and advanced in a PRNG-chosen interleaving, each compared with the model's solo "
+        "created from one definition object (each with the default root container or its own `root_container_name=` override) and advanced in a PRNG-chosen interleaving, each compared with the model's solo "
         "output, with a structural snapshot of the definition compared before and after; non-trivial = the stream has at "
         "least two packets; distinct = distinct request line")
 ASSUMPTIONS = ["object identity / aliasing between generators is exercised on the real objects only (a value model cannot "
@@ -51,8 +51,12 @@ def generate(rng, tier):
             srcs = [b"".join(stream(rng, d, rng.randrange(1, 6))) for _ in range(k)]
             sched = [rng.randrange(k) for _ in range(rng.randrange(3, 25))]
             o = (rng.choice("01"), "0", rng.choice("01"), "0", rng.choice("01"))
-            yield (f"gensched {dsx} - {sx(list(o))} 0 {sx([[hx(s)] for s in srcs])} {sx([str(i) for i in sched])}"), \
-                "interleave"
+            # each generator may name its own root container (the `root_container_name=` option); the others use the
+            # definition's default
+            names = [c.name for c in d.all]
+            roots = [xser.S(rng.choice(names)) if rng.random() < 0.4 else "-" for _ in range(k)]
+            yield (f"gensched {dsx} {sx(roots)} {sx(list(o))} 0 {sx([[hx(s)] for s in srcs])} "
+                   f"{sx([str(i) for i in sched])}"), "interleave"
     # generators of one definition over *segmented* streams of the same APIDs, with reassembly on: per-generator state
     from harness.props import c12
     hdsx = sx(c12.header_only_def())
@@ -70,9 +74,10 @@ def impl(line):
     if t[0] == "gen":
         return genutil.run_gen(line)
     defn = genutil.get_def(t[1])
-    root = None if t[2] == "-" else xbuild.uS(t[2])
+    roots = [None if r == "-" else xbuild.uS(r) for r in (t[2] if isinstance(t[2], list) else [t[2]] * len(t[5]))]
     before = sx(xser.definition(defn))
-    runners = [genutil.GenRunner(defn, root, t[3], int(t[4]), b"".join(unhx(c) for c in src)) for src in t[5]]
+    runners = [genutil.GenRunner(defn, root, t[3], int(t[4]), b"".join(unhx(c) for c in src))
+               for src, root in zip(t[5], roots)]
     for i in t[6]:
         runners[int(i)].step()
     for r in runners:
